@@ -227,7 +227,7 @@ pub fn run(ctx: &Ctx, replay: Option<&serde_json::Value>) {
     }
     ctx.set_rule("TokenPlan histories (both algorithms for every signing key): identifiers compared after every build/append/third-party/seal/serialise/verify step and with the wire signatures read independently; two further twins minted through the OS-RNG entry points; every signature-level re-encoding of the catalogue applied at every block; non-trivial = history of >= 2 blocks, or an accepted re-encoding (distinct by kind, index, block count, root algorithm)");
     ctx.assume("uniqueness is probabilistic in the OS RNG; a collision report cannot be a false alarm, absence is not established");
-    let cases = ctx.tier.pick(3000, 180_000);
+    let cases = ctx.tier.pick(9000, 180_000);
     let cfg = GenCfg {
         max_facts: 2,
         max_rules: 1,
